@@ -102,7 +102,7 @@ Inductive event :=
 | EConnErr                         (* env: the conn's read side fails / peer closes (after buffered bytes) *)
 | EFinish (rid : N) (r : hres)     (* env: Handler.Handle of request rid returns r *)
 | EWriteOk                         (* env: the conn.Write in progress succeeds *)
-| EWriteFail                       (* env: the conn.Write in progress fails *)
+| EWriteFail                       (* env: the conn.Write in progress fails (any error, time-outs included: D15) *)
 | ECtxCancel                       (* env: the context given to ServeConn is cancelled *)
 | EReaderGet                       (* reader: ReadFcall returns the next frame *)
 | EReaderFail                      (* reader: ReadFcall fails -> CloseWithError *)
